@@ -21,7 +21,8 @@ LEVEL_NOTE = ("trusted: hand model of the numpy/xarray primitives (fmax.accumula
 TECHNIQUE = "Coq proof over an extracted executable model + correspondence check"
 SITES = ["C07.piece", "C07.bscore"]
 RULE = ("lines of 1-7 ordinates k/8 on increasing half-integer thresholds: non-decreasing, with plateaus, with one or several decreasing runs, with NaN "
-        "(scattered or whole line), 0-2 extra dimensions stored in shuffled order with the threshold dimension anywhere; new thresholds inside/outside/"
+        "(scattered, whole line, or placed so that every decrease sits across a NaN gap and no neighbouring pair decreases anywhere in the array; each "
+        "such line also as an array of its own), 0-2 extra dimensions stored in shuffled order with the threshold dimension anywhere; new thresholds inside/outside/"
         "duplicating the grid; 4 fill methods x min_nonnan 0-4; tolerances 0, k/8 and exactly the total decrease; observations on/between/outside "
         "thresholds or NaN; a case is distinct by the hash of function + inputs and non-trivial when the function returns a value")
 ASSUMPTIONS = ["thresholds and observations are finite or NaN", "round_values is checked for dyadic precisions whose multiples have at most 7 decimals"]
@@ -59,6 +60,38 @@ def gen_line(rng, n, kind=None, lo=0, hi=8):
     return [k / 8.0 for k in ks]
 
 
+def adjacent_decrease(l):
+    return any(not (np.isnan(a) or np.isnan(b)) and a > b for a, b in zip(l, l[1:]))
+
+
+def hidden_decrease(l):
+    """the known ordinates decrease somewhere, but never between two neighbouring positions: every decrease sits across a NaN gap"""
+    kn = [v for v in l if not np.isnan(v)]
+    return not adjacent_decrease(l) and any(a > b for a, b in zip(kn, kn[1:]))
+
+
+def gap_line(rng, n, lo=0, hi=8):
+    """a line in which no two NEIGHBOURING known ordinates decrease, while the known ordinates (usually) do decrease across one or more
+    NaN gaps (also leading / trailing NaN): a test of the shape `diff < 0` sees nothing there, the running maximum / reverse running
+    minimum must still act"""
+    if n >= 3 and rng.random() < 0.6:
+        # non-decreasing blocks separated by gaps of 1-2 NaN, a later block (usually) starting below the end of the one before
+        ln, level = [NAN] * rng.choice([0, 0, 0, 1, 2]), None
+        while len(ln) < n:
+            blk = sorted(rng.randint(lo, hi) for _ in range(rng.randint(1, 3)))
+            if level is not None and blk[0] >= level and level > lo and rng.random() < 0.8:
+                shift = blk[0] - rng.randint(lo, level - 1)
+                blk = [max(lo, k - shift) for k in blk]
+            level = blk[-1]
+            ln += [k / 8.0 for k in blk] + [NAN] * rng.randint(1, 2)
+        return ln[:n]
+    ln = gen_line(rng, n, kind=rng.choice(["random", "decmany", "dec1"]), lo=lo, hi=hi)
+    for i in range(n - 1):      # blank one end of every neighbouring decreasing pair (blanking creates no new neighbours)
+        if not (np.isnan(ln[i]) or np.isnan(ln[i + 1])) and ln[i] > ln[i + 1]:
+            ln[i + rng.randint(0, 1)] = NAN
+    return ln
+
+
 def gen_array(rng, nan_mode=None, nmin=1, nmax=7, extra=None, lo=0, hi=8):
     n = rng.randint(nmin, nmax)
     ths = sorted(rng.sample(range(0, 21), n))
@@ -71,7 +104,9 @@ def gen_array(rng, nan_mode=None, nmin=1, nmax=7, extra=None, lo=0, hi=8):
     lines = []
     for _ in range(ncase):
         ln = gen_line(rng, n, lo=lo, hi=hi)
-        if nan_mode == "scatter":
+        if nan_mode == "gap" or (nan_mode == "gapmix" and rng.random() < 0.6):
+            ln = gap_line(rng, n, lo=lo, hi=hi)         # "gap": no neighbouring decrease anywhere in the array; "gapmix": next to ordinary lines
+        elif nan_mode == "scatter" or (nan_mode == "gapmix" and rng.random() < 0.5):
             ln = [NAN if rng.random() < 0.3 else v for v in ln]
         elif nan_mode == "line" and rng.random() < 0.4:
             ln = [NAN] * n
@@ -111,6 +146,8 @@ def enc_lines(lines):
 
 def cmp_lines(impl_da, sizes, model_lines, td=TD):
     """implementation array vs model lines (list of list of atoms); -> None or (label, impl line, model line)"""
+    if core.is_err(model_lines):      # the model entry is missing / raises: a tie failure, not a crash of the check
+        return {}, "a value", model_lines
     dims, labs, got = lines_of(impl_da, sizes, td)
     for lb, g, m in zip(labs, got, model_lines):
         q = core.dec_nums(m)
@@ -171,10 +208,56 @@ def same_line(got, want, tol=1e-9):
 
 
 # ------------------------------------------------------------------------------------------
-def check_envelope(ctx, da=None, sizes=None):
+ENV_CONTRACT = "lower<=original<=upper, upper = running max, lower = reverse running min (both over the known points, NaN ignored), NaN kept"
+
+
+def envelope_line_ok(o, o2, u, l):
+    """the documented contract of cdf_envelope on one line o (threshold order): NaN kept, bracket, monotone over the known points, minimal
+    (= running max / reverse running min ignoring NaN), fixpoint on a non-decreasing line"""
+    nn = [i for i, v in enumerate(o) if not np.isnan(v)]
+    ok = len(u) == len(o) and len(l) == len(o) and same_line(o2, [F(v) for v in o])
+    ok = ok and all(np.isnan(u[i]) and np.isnan(l[i]) for i in range(len(o)) if i not in nn)
+    ok = ok and all(not np.isnan(u[i]) and not np.isnan(l[i]) and l[i] - 1e-12 <= o[i] <= u[i] + 1e-12 for i in nn)
+    ok = ok and all(u[i] <= u[j] + 1e-12 and l[i] <= l[j] + 1e-12 for i, j in zip(nn, nn[1:]))
+    if not ok:
+        return False
+    run = -np.inf
+    for i in nn:
+        run = max(run, o[i])
+        ok = ok and abs(u[i] - run) <= 1e-12
+    run = np.inf
+    for i in reversed(nn):
+        run = min(run, o[i])
+        ok = ok and abs(l[i] - run) <= 1e-12
+    if all(o[i] <= o[j] for i, j in zip(nn, nn[1:])):
+        ok = ok and all(abs(u[i] - o[i]) <= 1e-12 and abs(l[i] - o[i]) <= 1e-12 for i in nn)
+    return ok
+
+
+def envelope_alone(ctx, o, xs, desc, case):
+    """the same line as an array of its own: the envelope of a CDF does not depend on which other CDFs share the array (a whole-array
+    shortcut such as 'nothing decreases anywhere' / 'no NaN anywhere' is decided by this line only)"""
+    one = xr.DataArray(np.array(o, dtype=float), dims=[TD], coords={TD: xs})
+    r = core.call_impl(C().cdf_envelope, one, TD)
+    ctx.count("envelope:line_alone")
+    if r[0] != "ok":
+        ctx.violation("cdf_envelope raises on one line of the array taken alone", {"fn": "cdf_envelope", "cdf": gens.da_repr(one), "taken_from": desc, "case": case}, "a value", r[1])
+        return False
+    o2, u, l = ([float(v) for v in r[1].sel(cdf_type=k).sortby(TD).values] for k in ("original", "upper", "lower"))
+    if not envelope_line_ok(o, o2, u, l):
+        ctx.violation("cdf_envelope does not bracket minimally / is not monotone / changes a non-decreasing CDF / moves a NaN (one line as an array of its own)",
+                      {"fn": "cdf_envelope", "cdf": gens.da_repr(one), "taken_from_case": case}, ENV_CONTRACT, {"original": o2, "upper": u, "lower": l})
+        return False
+    return True
+
+
+def check_envelope(ctx, da=None, sizes=None, alone=None):
     rng = ctx.rng
     if da is None:
-        da, sizes, ths = gen_array(rng, lo=-2 if rng.random() < 0.2 else 0, hi=10 if rng.random() < 0.2 else 8)
+        # "gap" / "gapmix": decreases that sit across NaN gaps only (no neighbouring pair decreases anywhere in the array) / next to ordinary lines
+        mode = rng.choice(["none", "none", "scatter", "line", "gap", "gap", "gapmix"])
+        da, sizes, ths = gen_array(rng, nan_mode=mode, nmin=3 if mode in ("gap", "gapmix") else 1,
+                                   lo=-2 if rng.random() < 0.2 else 0, hi=10 if rng.random() < 0.2 else 8)
         if rng.random() < 0.3:      # coordinates stored in non-increasing order: the function sorts
             da = contiguous(da.isel({TD: list(rng.sample(range(da.sizes[TD]), da.sizes[TD]))}))
     desc = {"fn": "cdf_envelope", "cdf": gens.da_repr(da)}
@@ -183,6 +266,10 @@ def check_envelope(ctx, da=None, sizes=None):
     m = mcall(ctx, "c17_envelope", enc_lines(lines))
     ctx.case(desc)
     ctx.count("envelope")
+    # which class of array this is: a decrease between neighbours somewhere / decreases across NaN gaps only / none at all
+    adj, hid = any(adjacent_decrease(l) for l in lines), any(hidden_decrease(l) for l in lines)
+    ctx.count("envelope:" + ("neighbouring_and_across_nan_gap" if adj and hid else "neighbouring_decrease" if adj else
+                             "decrease_across_nan_gap_only" if hid else "no_decrease"))
     if impl[0] != "ok":
         ctx.violation("cdf_envelope raises", desc, "a value", impl[1])
         return
@@ -192,25 +279,20 @@ def check_envelope(ctx, da=None, sizes=None):
     _, _, up = lines_of(env.sel(cdf_type="upper"), sizes)
     _, _, low = lines_of(env.sel(cdf_type="lower"), sizes)
     for lb, o, o2, u, l in zip(labs, lines, orig, up, low):
-        nn = [i for i, v in enumerate(o) if not np.isnan(v)]
-        ok = same_line(o2, [F(v) for v in o])
-        ok = ok and all(np.isnan(u[i]) and np.isnan(l[i]) for i in range(len(o)) if i not in nn)
-        ok = ok and all(not np.isnan(u[i]) and not np.isnan(l[i]) and l[i] - 1e-12 <= o[i] <= u[i] + 1e-12 for i in nn)
-        ok = ok and all(u[i] <= u[j] + 1e-12 and l[i] <= l[j] + 1e-12 for i, j in zip(nn, nn[1:]))
-        run = -np.inf
-        for i in nn:
-            run = max(run, o[i])
-            ok = ok and abs(u[i] - run) <= 1e-12
-        run = np.inf
-        for i in reversed(nn):
-            run = min(run, o[i])
-            ok = ok and abs(l[i] - run) <= 1e-12
-        if all(o[i] <= o[j] for i, j in zip(nn, nn[1:])):
-            ok = ok and all(abs(u[i] - o[i]) <= 1e-12 and abs(l[i] - o[i]) <= 1e-12 for i in nn)
-        if not ok:
+        if not envelope_line_ok(o, o2, u, l):
             ctx.violation("cdf_envelope does not bracket minimally / is not monotone / changes a non-decreasing CDF / moves a NaN", {**desc, "case": dict(zip(dims, lb))},
-                          "lower<=original<=upper, upper = running max, lower = reverse running min, NaN kept", {"original": o2, "upper": u, "lower": l})
+                          ENV_CONTRACT, {"original": o2, "upper": u, "lower": l})
             break
+    # every line that has a NaN or a decrease, as an array of its own (all lines when asked to; at most 12 otherwise)
+    if len(lines) > 1 or da.ndim > 1 or alone:
+        xs = sorted(float(t) for t in da[TD].values)
+        pick = [k for k, o in enumerate(lines) if alone or any(np.isnan(v) for v in o) or adjacent_decrease(o)]
+        for k in (pick if alone or len(pick) <= 12 else rng.sample(pick, 12)):
+            if not envelope_alone(ctx, lines[k], xs, gens.da_repr(da) if len(lines) <= 12 else "(array of %d lines)" % len(lines), dict(zip(dims, labs[k]))):
+                break
+    if m is not NoModel and core.is_err(m):
+        ctx.tie_fail("cdf_envelope returns a value where the model raises", desc, "value", m)
+        return
     for k, name in enumerate(["original", "upper", "lower"] if m is not NoModel else []):
         bad = cmp_lines(env.sel(cdf_type=name), sizes, [t[k] for t in m])
         if bad:
@@ -652,7 +734,8 @@ def run_without_model(ctx):
 
 
 def probes(ctx):
-    """boundaries no random dyadic case reaches: total decrease exactly at / just above the tolerance; precision 0 with more than 7 decimals"""
+    """boundaries no random dyadic case reaches: total decrease exactly at / just above the tolerance; precision 0 with more than 7 decimals;
+    envelope of lines whose decreases sit across NaN gaps only"""
     def arr(lines, ths):
         return xr.DataArray(np.array(lines, dtype=float), dims=["a", TD], coords={"a": list(range(len(lines))), TD: [t / 2.0 for t in ths]})
     ths = [0, 2, 4, 6]
@@ -683,6 +766,19 @@ def probes(ctx):
     for ffm, im in [("linear", "trapz"), ("step", "exact"), ("forward", "trapz"), ("backward", "exact")]:
         check_adjust(ctx, given=(da, {"a": len(lines)}, ths, ob, 0.0, dense, ffm, im))
         ctx.count("probe:adjust_dense_additional_thresholds")
+    # envelope of CDFs whose decreases all sit across NaN gaps (gap of 1-3 NaN; drop tiny / moderate / full; also leading and trailing NaN
+    # and two gaps): together in one array in which no neighbouring pair decreases, each alone (1-D), next to a line with a neighbouring
+    # decrease, and with the threshold dimension first
+    gl = []
+    for g in (1, 2, 3):
+        for a, d in ((0.6, 1e-9), (0.6, 0.2), (0.7, 0.3), (1.0, 1.0)):
+            gl.append([0.0, a] + [NAN] * g + [a - d, 1.0] + [NAN] * (3 - g))
+    gl += [[NAN, 0.9, NAN, 0.3, NAN, 0.1, 0.2], [0.5, NAN, 0.25, 0.25, NAN, 0.0, NAN], [NAN, NAN, 0.8, NAN, NAN, 0.1, NAN], [0.2, 0.4, NAN, 0.4, NAN, 0.4, 1.0]]
+    gths = [0, 1, 3, 4, 7, 8, 10]
+    check_envelope(ctx, arr(gl, gths), {"a": len(gl)}, alone=True)
+    check_envelope(ctx, arr(gl + [[0.0, 0.5, 0.25, 0.75, 1.0, 1.0, 1.0]], gths), {"a": len(gl) + 1})
+    check_envelope(ctx, contiguous(arr(gl[:5], gths).transpose(TD, "a")), {"a": 5})
+    ctx.count("probe:envelope_decrease_across_nan_gap", 3)
     # precision 0 = no rounding at all, however many decimals
     check_round(ctx, [1 / 3, 0.123456789, 2.00000004, -1.999999996, 5e-9], 0)
     check_round(ctx, [1 / 3, 0.123456789], 0.0)
@@ -707,7 +803,14 @@ def sweep(ctx):
         ths = list(range(0, 2 * n, 2))
         da = xr.DataArray(np.array(lines, dtype=float), dims=["a", TD], coords={"a": list(range(len(lines))), TD: [t / 2.0 for t in ths]})
         sizes = {"a": len(lines)}
-        check_envelope(ctx, da, sizes)
+        check_envelope(ctx, da, sizes, alone=True)
+        # the same lines split by class, so that each class is seen without the others in the array: no neighbouring decrease anywhere
+        # (the decreases that remain sit across NaN gaps), no NaN anywhere, both
+        for sub in ([l for l in lines if not adjacent_decrease(l)], [l for l in lines if not any(np.isnan(v) for v in l)],
+                    [l for l in lines if hidden_decrease(l)]):
+            if sub and len(sub) < len(lines):
+                check_envelope(ctx, xr.DataArray(np.array(sub, dtype=float), dims=["a", TD], coords={"a": list(range(len(sub))), TD: [t / 2.0 for t in ths]}),
+                               {"a": len(sub)})
         for method in FILLS:
             for mn in (1, 2, 3):
                 if method == "linear" and mn < 2:
